@@ -21,6 +21,8 @@ def _cur():
 
 
 def leaf(x=0):
+    if x < 0:
+        raise ValueError(f"leaf {x} fails")   # a sub-task that ends FAILED (its record must still be replayed, not relaunched)
     return x * 2
 
 
